@@ -607,6 +607,34 @@ def r3c_division(ctx, chk, rule="C06.3c"):
                         chk.ok(rule, where, "`%s`: at every call site in the solver (%d) the divisor is the sum of the probabilities of the very list that is mapped - > 0 whenever "
                                "the list is non-empty, and not evaluated otherwise" % (src(node), len(sites)))
                         continue
+                # the divisor is a plain parameter holding a length: judge the length at every call site
+                if isinstance(node.right, ast.Name) and node.right.id in f.params:
+                    sites = [(g, c) for g, c in ctx.cg.callers_of(f) if g in scope and not getattr(c, "synthetic", False)]
+                    ps = [p_ for p_ in f.params if p_ != "self"]
+                    verdicts = []
+                    for g, c in sites:
+                        amap = dict(zip(ps, c.args))
+                        amap.update({k_.arg: k_.value for k_ in c.keywords if k_.arg})
+                        a = amap.get(node.right.id)
+                        if isinstance(a, ast.Call) and call_name(a) == "len" and a.args:
+                            what = attr_path(a.args[0])
+                            if what == "self." + shared.solver_names(ctx)["field"]:
+                                verdicts.append(("ok", g, c, "the number of states (a validated game has at least one)"))
+                            elif what is not None and what in g.params and g.qual == VIR:
+                                verdicts.append(("bad", g, c, "len(%s): the backward search returns an empty list when no non-final state can reach a final state" % what))
+                            else:
+                                verdicts.append(("?", g, c, src(a)))
+                        else:
+                            verdicts.append(("?", g, c, src(a) if a is not None else "?"))
+                    bad_v = [v for v in verdicts if v[0] == "bad"]
+                    if bad_v:
+                        _, g, c, why = bad_v[0]
+                        chk.violation(rule, g.where(c), "`%s` in %s divides by `%s`, which this call sets to %s: ZeroDivisionError out of solve() for a well-formed game" % (
+                            src(node), f.short, node.right.id, why), expected="no division by a length that can be 0", found=src(c)[:100], construct="%s division by %s" % (f.short, node.right.id))
+                        continue
+                    if verdicts and all(v[0] == "ok" for v in verdicts):
+                        chk.ok(rule, where, "`%s`: the divisor is %s at every call site" % (src(node), verdicts[0][3]))
+                        continue
                 chk.undecided(rule, where, "division `%s`: divisor not shown to be non-zero" % src(node))
     chk.extra["divisions"] = n
 
